@@ -25,7 +25,20 @@ def events(log):
 
 def scenario(chk, i):
     rng = chk.rng("scn", i)
-    kind = i % 7
+    kind = i % 8
+    if kind == 7:
+        # buffer growth: tiny initial buffer, one long token (never a REJECT scanner: i*6)
+        job = tokens.c03_job(chk, rng, i * 6)
+        case = job["case"]
+        case["opts"]["ledger"] = True
+        case.setdefault("driver", {})
+        case["driver"]["fini"] = list(case["driver"].get("fini", [])) + [("gdelete_all",)]
+        cfg = dict([c for c in job["configs"] if c["flavour"] != "cxx" and not c.get("deliv")][0])
+        cfg.pop("input_filter", None)
+        cfg.pop("input_flags", None)
+        inp = {"sources": [b"ab " + b"xy" * rng.rint(40, 200) + b" ab\n"], "sched": [0],
+               "bufsize": rng.choice([4, 8, 16])}
+        return "buffer_growth", case, cfg, inp
     if kind == 6:
         # serialized tables load
         from . import c15
@@ -40,9 +53,9 @@ def scenario(chk, i):
         name, mk = [("delivery", tokens.c03_job), ("start_stack", tokens.c05_job),
                     ("reject", tokens.c07_job), ("stream_edits", tokens.c08_job),
                     ("buffers", tokens.c11_job), ("eof_chain", tokens.c10_job)][kind]
-        if name == "start_stack" and (i // 7) % 2 == 0:
+        if name == "start_stack" and (i // 8) % 2 == 0:
             # the deep variant: 30-130 pushes, so the start-condition stack is reallocated
-            job = mk(chk, rng, 7 * (i // 7) + 3)
+            job = mk(chk, rng, 7 * (i // 8) + 3)
             name = "start_stack_deep"
         else:
             job = mk(chk, rng, i)
@@ -54,6 +67,15 @@ def scenario(chk, i):
     cfg.pop("input_filter", None)
     cfg.pop("input_flags", None)
     inp = job["inputs"][i % len(job["inputs"])]
+    if name == "delivery":
+        # tiny initial buffer and a long token: the growing yyrealloc calls of
+        # yy_get_next_buffer() are among the enumerated requests
+        # (REJECT scanners never grow their buffer)
+        cands = [x for x in job["inputs"] if 0 < x.get("bufsize", 0) <= 16 and
+                 any(b"xxxxx" in s_ or b"yyyyy" in s_ or b"xyxy" in s_ or len(s_) > 100
+                     for s_ in x["sources"])]
+        if cands and not case["opts"].get("uses_reject"):
+            inp = cands[i % len(cands)]
     return name, case, cfg, inp
 
 
@@ -330,7 +352,7 @@ def run(pid, tier):
     chk = common.Check(pid, tier, level="fault_enumeration")
     chk.rule = RULE
     known.replay_known(chk)
-    na, nr = (21, 12) if tier == "quick" else (420, 200)
+    na, nr = (24, 12) if tier == "quick" else (480, 200)
     ks = []
     for o in util.pmap(alloc_worker, [(chk, i) for i in range(na)]):
         if o.get("skipped"):
@@ -367,7 +389,7 @@ def run(pid, tier):
     for k in ("fatal_nomem", "eintr_identical", "eio_reported", "path:stdio_fread", "path:stdio_getc",
               "path:read2", "path:c99_fread", "scenario:tables_load", "init_error_returns_ok",
               "scenario:buffers", "scenario:reject", "scenario:start_stack", "scenario:start_stack_deep",
-              "stack_regrown_in_undisturbed_run"):
+              "stack_regrown_in_undisturbed_run", "fatal_buffer_grow", "scenario:buffer_growth"):
         chk.require(k)
     return chk
 
